@@ -289,6 +289,55 @@ func suiteSession(h *H) {
 	defer os.RemoveAll(base)
 	caseNo := 0
 	oldT := int64(1400000000)
+	// ---- several sources in one invocation (with and without trailing slash): every arrangement that can express it
+	{
+		ms := filepath.Join(base, "multi")
+		for _, d := range []string{"A", "B/inner"} {
+			os.MkdirAll(filepath.Join(ms, "srcs", d), 0o755)
+		}
+		os.WriteFile(filepath.Join(ms, "srcs", "A", "fa"), []byte("from A"), 0o644)
+		os.WriteFile(filepath.Join(ms, "srcs", "B", "fb"), []byte("from B"), 0o644)
+		os.WriteFile(filepath.Join(ms, "srcs", "B", "inner", "fi"), []byte("from B/inner"), 0o644)
+		want := map[string]string{"fa": "from A", "fb": "from B", "inner/fi": "from B/inner"}
+		check := func(tag string, args []string, dst string) {
+			done := make(chan string, 1)
+			go func() {
+				_, err := maincmd.Main(context.Background(), quietEnv(), args, nil)
+				if err != nil {
+					done <- "err:" + err.Error()
+				} else {
+					done <- "ok"
+				}
+			}()
+			out := "timeout"
+			select {
+			case out = <-done:
+			case <-time.After(30 * time.Second):
+			}
+			v := ""
+			if out != "ok" {
+				v = "FAIL[C01] a transfer with several sources failed: " + strings.SplitN(out, "\n", 2)[0]
+			} else {
+				for rel, c := range want {
+					if b, err := os.ReadFile(filepath.Join(dst, rel)); err != nil || string(b) != c {
+						v = fmt.Sprintf("FAIL[C01] several remote sources in one invocation: %q from the second source is missing although the run reported success (only the first source is requested)", rel)
+						if !strings.Contains(tag, "pull") {
+							v = fmt.Sprintf("FAIL[C01] several sources in one invocation (%s): %q is missing after a successful run", tag, rel)
+						}
+					}
+				}
+			}
+			h.emit(fmt.Sprintf("!session-multi seed=%d %s", h.seed, tag), out, v, out == "ok")
+		}
+		ld := filepath.Join(ms, "dst-local")
+		check("local A/ B/", []string{"rsync", "-r", filepath.Join(ms, "srcs", "A") + "/", filepath.Join(ms, "srcs", "B") + "/", ld}, ld)
+		if d, err := startDaemon([]rsyncd.Module{{Name: "m", Path: filepath.Join(ms, "srcs")}, {Name: "w", Path: filepath.Join(ms, "dst-push"), Writable: true}}); err == nil {
+			pd := filepath.Join(ms, "dst-pull")
+			check("pull m/A/ m/B/", []string{"rsync", "-r", d.url("m", "A/"), d.url("m", "B/"), pd}, pd)
+			check("push A/ B/", []string{"rsync", "-r", filepath.Join(ms, "srcs", "A") + "/", filepath.Join(ms, "srcs", "B") + "/", d.url("w", "")}, filepath.Join(ms, "dst-push"))
+			d.stop()
+		}
+	}
 	nCases := h.n(40, 1200)
 	for i := 0; i < nCases; i++ {
 		// ---- generate a source tree and a prior destination state
